@@ -641,6 +641,26 @@ def repr_values(condition: Callable[..., bool], lambda_inspection: Optional[Cond
     if lambda_inspection is not None:
         variable_lookup = collect_variable_lookup(condition=condition, resolved_kwargs=selected_kwargs)
 
+        # The targets of the named expressions are local to the lambda, also when they are bound inside
+        # a comprehension. A closure or a global variable which bears the same name must not be taken for them.
+        if sys.version_info >= (3, 8):
+            local_names = {
+                node.target.id
+                for node in ast.walk(lambda_inspection.node.body)
+                if isinstance(node, ast.NamedExpr) and isinstance(node.target, ast.Name)
+            }
+
+            if local_names:
+                parameter_names = set(inspect.signature(condition).parameters.keys())
+                variable_lookup = [
+                    lookup if i < 2 else {
+                        name: value
+                        for name, value in lookup.items()
+                        if name not in local_names or name in parameter_names
+                    }
+                    for i, lookup in enumerate(variable_lookup)
+                ]
+
         recompute_visitor = icontract._recompute.Visitor(
             variable_lookup=variable_lookup, mangled_names=_collect_mangled_names(condition=condition))
 
